@@ -9,21 +9,27 @@ from .contracts import DROPPED, Contract, load_function
 from .engine import Engine, OutOfSubset
 
 
+def tid(c):
+    """target id; variants of one function (different parameter instantiations) carry a label"""
+    lab = getattr(c, "label", None)
+    return c.target + (f"[{lab}]" if lab else "")
+
+
 def generate(c, registry):
     """VC generation only: -> dict(function, hash, status, eng) ; obligations in eng.obls"""
     t0 = time.time()
     try:
         fnode, h = load_function(c.path, c.qual)
     except (LookupError, FileNotFoundError, SyntaxError) as e:
-        return dict(function=c.target, hash=None, status="missing", why=str(e), results=[], notes=[], seconds=0)
+        return dict(function=tid(c), hash=None, status="missing", why=str(e), results=[], notes=[], seconds=0)
     eng = Engine(c, getattr(c, "registry", None) or registry, fnode, None)
     try:
         eng.run()
     except OutOfSubset as e:
-        return dict(function=c.target, hash=h, status="out-of-subset", why=str(e), results=[], notes=eng.notes, seconds=time.time() - t0)
+        return dict(function=tid(c), hash=h, status="out-of-subset", why=str(e), results=[], notes=eng.notes, seconds=time.time() - t0)
     except RecursionError:
-        return dict(function=c.target, hash=h, status="out-of-subset", why="recursion limit in the engine", results=[], notes=eng.notes, seconds=time.time() - t0)
-    return dict(function=c.target, hash=h, status="ok", eng=eng, notes=eng.notes, paths=eng.npaths, seconds=time.time() - t0)
+        return dict(function=tid(c), hash=h, status="out-of-subset", why="recursion limit in the engine", results=[], notes=eng.notes, seconds=time.time() - t0)
+    return dict(function=tid(c), hash=h, status="ok", eng=eng, notes=eng.notes, paths=eng.npaths, seconds=time.time() - t0)
 
 
 def verify_many(contracts, registry, timeout_ms=10000):
@@ -120,23 +126,24 @@ def run_contracts(ctx, contracts, registry, workloads=(), concrete_env=None, mon
     todo = [c for c in contracts if not (c.trusted or c.path is None)]
     outs = verify_many(todo, registry, timeout)
     for c, out in zip(todo, outs):
-        ctx.functions[c.target] = out.get("hash")
+        c_target = tid(c)
+        ctx.functions[c_target] = out.get("hash")
         if out["status"] in ("missing", "out-of-subset"):
-            ctx.notes.append(f"PROOF-LOST {c.target}: {out['why']} (bounded stand-in decides)")
-            ctx.obligations.append(dict(id=f"{c.target}:{out['status']}", verdict="undecided", solver=None, seconds=0, function=c.target, note=out["why"], proof_lost=True))
-            had = [k for k in ledger if k.startswith(c.target + ":")]
+            ctx.notes.append(f"PROOF-LOST {c_target}: {out['why']} (bounded stand-in decides)")
+            ctx.obligations.append(dict(id=f"{c_target}:{out['status']}", verdict="undecided", solver=None, seconds=0, function=c_target, note=out["why"], proof_lost=True))
+            had = [k for k in ledger if k.startswith(c_target + ":")]
             if had:
-                lost_functions.add(c.target)
-                print(f"PROOF-LOST property={ctx.prop} function={c.target} ({out['why']})")
+                lost_functions.add(c_target)
+                print(f"PROOF-LOST property={ctx.prop} function={c_target} ({out['why']})")
             continue
-        ctx.notes.extend(f"{c.target}: {n}" for n in out["notes"])
+        ctx.notes.extend(f"{c_target}: {n}" for n in out["notes"])
         agg = aggregate(out["results"])
         n_real = sum(1 for r in agg if r["kind"] != "cover")
         if n_real == 0:
-            ctx.mark_broken(f"{c.target}: zero obligations generated")
+            ctx.mark_broken(f"{c_target}: zero obligations generated")
         for r in agg:
-            rid = f"{c.target}:{r['id']}"
-            rec = dict(id=rid, verdict=r["verdict"], solver=r["solver"], seconds=r["seconds"], function=c.target,
+            rid = f"{c_target}:{r['id']}"
+            rec = dict(id=rid, verdict=r["verdict"], solver=r["solver"], seconds=r["seconds"], function=c_target,
                        note=r.get("note", ""), line=r.get("line"), instances=r.get("instances", 1))
             if r["kind"] == "cover":
                 if r["verdict"] == "vacuous" and r["id"] == "cover.pre":
@@ -151,7 +158,7 @@ def run_contracts(ctx, contracts, registry, workloads=(), concrete_env=None, mon
                 new_ledger[rid] = {"hash": out["hash"]}
             if r["verdict"] == "refuted":
                 witness = {"obligation": rid, "clause_text": r.get("note", ""), "line": r.get("line"), "cls": "refuted-obligation",
-                           "function": c.target}
+                           "function": c_target}
                 ctx._pending_refuted = getattr(ctx, "_pending_refuted", [])
                 ctx._pending_refuted.append((c, r, rid, witness))
             elif r["verdict"] == "undecided":
@@ -160,7 +167,7 @@ def run_contracts(ctx, contracts, registry, workloads=(), concrete_env=None, mon
                     if led.get("hash") == out["hash"]:
                         ctx.undecided.append(rid + " (solver instability: same source as ledger)")
                     else:
-                        lost_functions.add(c.target)
+                        lost_functions.add(c_target)
                         ctx._pending_lost = getattr(ctx, "_pending_lost", [])
                         ctx._pending_lost.append((c, r, rid))
                 else:
@@ -205,11 +212,11 @@ def run_contracts(ctx, contracts, registry, workloads=(), concrete_env=None, mon
         import json
 
         led = load_ledger()
-        led = {k: v for k, v in led.items() if not any(k.startswith(c.target + ":") for c in contracts)}
+        led = {k: v for k, v in led.items() if not any(k.startswith(tid(c) + ":") for c in contracts)}
         led.update(new_ledger)
         LEDGER_PATH.write_text(json.dumps(dict(sorted(led.items())), indent=0) + "\n")
     else:
-        missing = [k for k in ledger if any(k.startswith(c.target + ":") for c in contracts if c.path and not c.trusted)
+        missing = [k for k in ledger if any(k.startswith(tid(c) + ":") for c in contracts if c.path and not c.trusted)
                    and k not in new_ledger and k.split(":")[0] + ":" + k.split(":")[1] + ":" + k.split(":")[2] not in lost_functions
                    and not any(k.startswith(t + ":") for t in lost_functions)]
         for k in missing:
